@@ -22,7 +22,7 @@ RULE = ("seeded random circuits (trees with heralded sub-circuits, directly decl
 MANDATORY = ["bunched_input", "vacuum_input", "herald_in_ne_out", "herald_photons", "lossy",
              "explicit_outputs", "input_list", "reject_wrong_length", "reject_negative",
              "reject_noninteger", "reject_bool", "reject_photon_mismatch", "reject_nonstate",
-             "simulator_reused_after_change"]
+             "simulator_reused_after_change", "five_or_more_photons", "seven_or_more_modes"]
 DECIDING = ["mon.sim_postconditions", "mon.sim_amplitudes_checked", "rejections_checked"]
 BUDGET = {"quick": 25, "thorough": 420}
 ASSUMPTIONS = ["reference amplitude = own Glynn permanent over the circuit's own U_full and heralds "
@@ -45,7 +45,7 @@ def random_state(rng, k, n, bunch_p=0.4):
 
 def make_circuit(ctx, lw, rng):
     b = Builder(rng, lw, loss_p=float(rng.choice([0.0, 0.2, 0.4])), max_herald_photons=int(rng.choice([1, 2])))
-    n = int(rng.integers(1, 7))
+    n = int(rng.integers(1, 7)) if rng.random() < 0.9 else int(rng.integers(7, 10))
     log: list = []
     mode = rng.random()
     if mode < 0.35:
@@ -131,6 +131,12 @@ def run(ctx):
         ne = sorted(h["input"]) != sorted(h["output"])
         for _ in range(int(rng.integers(1, 4))):
             nph = int(rng.integers(0, 5 if k <= 4 else 4))
+            if k <= 3 and rng.random() < 0.1:
+                nph = int(rng.integers(5, 7))          # many photons on few modes
+                ctx.bucket("five_or_more_photons")
+            if k >= 7:
+                nph = min(nph, 2)
+                ctx.bucket("seven_or_more_modes")
             if nph + hph > 6:
                 nph = max(0, 6 - hph)
             n_in = 1 if rng.random() < 0.6 else int(rng.integers(2, 4))
